@@ -133,3 +133,164 @@ Qed.
 Corollary xattr_stable : forall s v, value_of_string s = Ok v ->
   value_of_string (display_hex v) = Ok v /\ value_of_string (display_base64 v) = Ok v.
 Proof. intros s v _. split; [apply xattr_hex_inv | apply xattr_b64_inv]. Qed.
+
+(* ======================================================================== *)
+(* part file names                                                            *)
+(* ======================================================================== *)
+Lemma rsplit_dot_none l : ~ In dot l -> rsplit_dot l = None.
+Proof.
+  induction l as [|b l IH]; intros H; [reflexivity|].
+  cbn [rsplit_dot]. rewrite IH by (intros H'; apply H; right; exact H').
+  rewrite byte_eqb_neq by (intros ->; apply H; left; reflexivity). reflexivity.
+Qed.
+
+Lemma rsplit_dot_app s e : ~ In dot e -> rsplit_dot (s ++ dot :: e) = Some (s, e).
+Proof.
+  intros He. induction s as [|b s IH].
+  - cbn [app rsplit_dot]. rewrite (rsplit_dot_none e He), byte_eqb_refl. reflexivity.
+  - cbn [app rsplit_dot]. rewrite IH. reflexivity.
+Qed.
+
+Lemma rsplit_dot_none_inv l : rsplit_dot l = None -> ~ In dot l.
+Proof.
+  induction l as [|c l IH]; intros E Hin; [exact Hin|].
+  cbn [rsplit_dot] in E. destruct (rsplit_dot l) as [[? ?]|]; [discriminate|].
+  destruct (byte_eqb c dot) eqn:Ec; [discriminate|].
+  destruct Hin as [->|Hin]; [rewrite byte_eqb_refl in Ec; discriminate | exact (IH eq_refl Hin)].
+Qed.
+
+Lemma rsplit_dot_some l : forall x y, rsplit_dot l = Some (x, y) -> l = x ++ dot :: y /\ ~ In dot y.
+Proof.
+  induction l as [|b l IH]; intros x y H; [discriminate|].
+  cbn [rsplit_dot] in H. destruct (rsplit_dot l) as [[x' y']|] eqn:E.
+  - inversion H; subst. destruct (IH _ _ eq_refl) as [-> Hy]. split; [reflexivity|exact Hy].
+  - destruct (byte_eqb b dot) eqn:Eb; [|discriminate]. inversion H; subst.
+    apply byte_eqb_eq in Eb. subst b. split; [reflexivity | apply rsplit_dot_none_inv, E].
+Qed.
+
+Lemma split_ext_app s e : s <> [] -> ~ In dot e -> bytes_eqb (s ++ dot :: e) (lit "..") = false ->
+  split_ext (s ++ dot :: e) = (s, Some e).
+Proof.
+  intros Hs He Hdd. unfold split_ext. rewrite Hdd, (rsplit_dot_app s e He).
+  destruct s; [contradiction|reflexivity].
+Qed.
+
+Lemma split_ext_some f s e : split_ext f = (s, Some e) -> f = s ++ dot :: e /\ s <> [] /\ ~ In dot e.
+Proof.
+  unfold split_ext. destruct (bytes_eqb f (lit "..")); [discriminate|].
+  destruct (rsplit_dot f) as [[x y]|] eqn:E; [|discriminate].
+  destruct x as [|x0 x]; [discriminate|]. intros H. inversion H; subst.
+  destruct (rsplit_dot_some _ _ _ E) as [-> Hy]. repeat split; [discriminate|exact Hy].
+Qed.
+
+Lemma split_ext_none f s : split_ext f = (s, None) -> s = f.
+Proof.
+  unfold split_ext. destruct (bytes_eqb f (lit "..")); [intros H; inversion H; reflexivity|].
+  destruct (rsplit_dot f) as [[[|x0 x] y]|]; intros H; inversion H; reflexivity.
+Qed.
+
+(* a marker: "part" followed by at least one digit *)
+Definition marker_str (m : bytes) : Prop :=
+  exists ds, m = lit "part" ++ ds /\ ds <> [] /\ forallb is_digit ds = true.
+
+Lemma marker_is_marker m : marker_str m -> is_part_marker m = true.
+Proof.
+  intros (ds & -> & Hne & Hd). unfold is_part_marker. rewrite strip_prefix_app.
+  destruct ds; [contradiction|exact Hd].
+Qed.
+
+Lemma marker_no c m : is_digit c = false -> ~ In c (lit "part") -> marker_str m -> ~ In c m.
+Proof.
+  intros Hc Hp (ds & -> & _ & Hd) Hin. apply in_app_or in Hin. destruct Hin as [Hin|Hin]; [exact (Hp Hin)|].
+  rewrite forallb_forall in Hd. rewrite (Hd _ Hin) in Hc. discriminate.
+Qed.
+
+Lemma marker_no_dot m : marker_str m -> ~ In dot m.
+Proof. apply marker_no; [reflexivity | cbn; intuition discriminate]. Qed.
+
+Lemma marker_has_p m : marker_str m -> In x70 m.
+Proof. intros (ds & -> & _). left. reflexivity. Qed.
+
+Lemma has_p_not_dotdot l : In x70 l -> bytes_eqb l (lit "..") = false.
+Proof. intros H. apply bytes_eqb_neq. intros ->. cbn in H. intuition discriminate. Qed.
+
+Lemma pna_not_marker e : is_pna e = true -> is_part_marker e = false.
+Proof.
+  unfold is_pna. intros H. apply bytes_eqb_eq in H.
+  assert (Hl : length e = 3%nat) by (rewrite <- (map_length lower), H; reflexivity).
+  destruct e as [|a [|b [|c [|d e]]]]; try discriminate Hl. clear.
+  unfold is_part_marker. change (lit "part") with [x70; x61; x72; x74]. cbn [strip_prefix].
+  destruct (byte_eqb x70 a); [|reflexivity]. destruct (byte_eqb x61 b); [|reflexivity].
+  destruct (byte_eqb x72 c); reflexivity.
+Qed.
+
+(* removing the marker that was just inserted gives the base name back *)
+Lemma remove_insert b m : b <> [] -> marker_str m -> remove_part_name (insert_part b m) = b.
+Proof.
+  intros Hb Hm.
+  assert (Happend : remove_part_name (b ++ dot :: m) = b).
+  { unfold remove_part_name.
+    rewrite split_ext_app; [| exact Hb | apply marker_no_dot, Hm
+                            | apply has_p_not_dotdot, in_or_app; right; right; apply marker_has_p, Hm].
+    rewrite (marker_is_marker m Hm). reflexivity. }
+  unfold insert_part. destruct (split_ext b) as [s [e|]] eqn:Eb; [|exact Happend].
+  destruct (is_pna e) eqn:Ep; [|exact Happend].
+  destruct (split_ext_some _ _ _ Eb) as (Hbe & Hs & He).
+  replace (s ++ dot :: m ++ dot :: e) with ((s ++ dot :: m) ++ dot :: e)
+    by (rewrite <- app_assoc; reflexivity).
+  unfold remove_part_name.
+  rewrite split_ext_app; [| destruct s; discriminate | exact He
+                          | apply has_p_not_dotdot, in_or_app; left; apply in_or_app; right; right; apply marker_has_p, Hm].
+  rewrite (pna_not_marker e Ep).
+  rewrite split_ext_app; [| exact Hs | apply marker_no_dot, Hm
+                          | apply has_p_not_dotdot, in_or_app; right; right; apply marker_has_p, Hm].
+  rewrite (marker_is_marker m Hm). symmetry. exact Hbe.
+Qed.
+
+Lemma remove_part_name_nonempty f : f <> [] -> remove_part_name f <> [].
+Proof.
+  intros Hf. unfold remove_part_name. destruct (split_ext f) as [s [e|]] eqn:E; [|exact Hf].
+  destruct (split_ext_some _ _ _ E) as (_ & Hs & _).
+  destruct (is_part_marker e); [exact Hs|].
+  destruct (split_ext s) as [s2 [e2|]]; [|exact Hf]. destruct (is_part_marker e2); [|exact Hf].
+  destruct s2; discriminate.
+Qed.
+
+(* the decimal part number is a non-empty digit string *)
+Lemma digit_char r : r < 10 -> is_digit (n2b (48 + r)) = true.
+Proof. intros H. unfold is_digit. rewrite b2n_n2b_small by lia. apply andb_true_iff. split; apply N.leb_le; lia. Qed.
+
+Lemma dec_fuel_digits fuel : forall n acc,
+  exists ds, dec_fuel fuel n acc = ds ++ acc /\ forallb is_digit ds = true /\ (fuel <> O -> ds <> []).
+Proof.
+  induction fuel as [|f IH]; intros n acc.
+  - exists []. split; [reflexivity|]. split; [reflexivity|]. intros H; contradiction.
+  - cbn [dec_fuel]. destruct (N.ltb n 10).
+    + exists [n2b (48 + n mod 10)]. split; [reflexivity|]. split; [|discriminate].
+      cbn [forallb]. rewrite digit_char by lia. reflexivity.
+    + destruct (IH (n / 10) (n2b (48 + n mod 10) :: acc)) as (ds & E & Hd & _).
+      exists (ds ++ [n2b (48 + n mod 10)]). rewrite E, <- app_assoc. split; [reflexivity|]. split.
+      * rewrite forallb_app, Hd. cbn [forallb]. rewrite digit_char by lia. reflexivity.
+      * intros _. destruct ds; discriminate.
+Qed.
+
+Lemma part_marker_str n : marker_str (part_marker n).
+Proof.
+  unfold part_marker, dec. destruct (dec_fuel_digits (S (N.to_nat (N.log2 n))) n []) as (ds & E & Hd & Hne).
+  exists ds. rewrite E, app_nil_r. split; [reflexivity|]. split; [apply Hne; discriminate | exact Hd].
+Qed.
+
+(* file-name level: holds for EVERY non-empty file name *)
+Theorem part_name_inv : forall f n m, f <> [] ->
+  remove_part_name (with_part_name f n) = remove_part_name f /\
+  with_part_name (with_part_name f n) m = with_part_name f m.
+Proof.
+  intros f n m Hf. unfold with_part_name.
+  rewrite remove_insert by (apply remove_part_name_nonempty, Hf || apply part_marker_str).
+  split; reflexivity.
+Qed.
+
+(* a name that is not itself a part name comes back exactly *)
+Corollary part_name_inv_base : forall f n, f <> [] -> remove_part_name f = f ->
+  remove_part_name (with_part_name f n) = f.
+Proof. intros f n Hf Hb. rewrite (proj1 (part_name_inv f n 0 Hf)). exact Hb. Qed.
